@@ -82,7 +82,7 @@ def same_lit(d, v, relax=()) -> bool:
     raise ValueError(v)
 
 
-def check_constraints(cs, d, kind_family, loc, errs):
+def check_constraints(cs, d, kind_family, loc, errs, relax=()):
     """cs: constraint pairs; only those of the datum's family apply (JSON Schema rule)."""
     for k, v in cs:
         if kind_family == "num" and k in NUM_C:
@@ -107,7 +107,7 @@ def check_constraints(cs, d, kind_family, loc, errs):
             bad = (
                 (k == "min_items" and len(d) < v)
                 or (k == "max_items" and len(d) > v)
-                or (k == "unique" and not _unique(d))
+                or (k == "unique" and not _unique(d, relax))
             )
         elif kind_family == "obj" and k in OBJ_C:
             bad = (k == "min_props" and len(d) < v) or (k == "max_props" and len(d) > v)
@@ -117,13 +117,20 @@ def check_constraints(cs, d, kind_family, loc, errs):
             errs.append((loc, "c:" + k))
 
 
-def _unique(items) -> bool:
+def _unique(items, relax=()) -> bool:
     n = len(items)
+    fam = _fam_relaxed if "unique_bool_int" in relax else _fam
     for i in range(n):
         for j in range(i + 1, n):
-            if _fam(items[i]) == _fam(items[j]) and items[i] == items[j]:
+            if fam(items[i]) == fam(items[j]) and items[i] == items[j]:
                 return False
     return True
+
+
+def _fam_relaxed(x):
+    # known finding: uniqueItems is checked through a Python set, where True == 1
+    k = jkind(x)
+    return "num" if k in ("int", "float", "bool") else k
 
 
 def _fam(x):
@@ -233,7 +240,7 @@ class RefDeser:
         if k == "any":
             fam = {"int": "num", "float": "num", "str": "str", "list": "arr", "dict": "obj"}.get(kd)
             if fam:
-                check_constraints(cs, d, fam, loc, errs)
+                check_constraints(cs, d, fam, loc, errs, self.relax)
             return d
         if k == "none":
             if kd != "null":
@@ -247,20 +254,20 @@ class RefDeser:
             if kd != "int":
                 errs.append((loc, "type"))
                 return d
-            check_constraints(cs, d, "num", loc, errs)
+            check_constraints(cs, d, "num", loc, errs, self.relax)
             return d
         if k == "float":
             if kd not in ("int", "float"):
                 errs.append((loc, "type"))
                 return d
             v = float(d)
-            check_constraints(cs, v, "num", loc, errs)
+            check_constraints(cs, v, "num", loc, errs, self.relax)
             return v
         if k == "str":
             if kd != "str":
                 errs.append((loc, "type"))
                 return d
-            check_constraints(cs, d, "str", loc, errs)
+            check_constraints(cs, d, "str", loc, errs, self.relax)
             return d
         if k in ("opt", "union"):
             if k == "opt":
@@ -296,7 +303,7 @@ class RefDeser:
                 errs.append((loc, "type"))
                 return None
             n0 = len(errs)
-            check_constraints(cs, d, "arr", loc, errs)
+            check_constraints(cs, d, "arr", loc, errs, self.relax)
             vals = [self.de(s.a[0], x, loc + (i,), (), errs) for i, x in enumerate(d)]
             if len(errs) > n0:
                 return None
@@ -319,7 +326,7 @@ class RefDeser:
                 errs.append((loc, "c:max_items"))
                 return None
             n0 = len(errs)
-            check_constraints(cs, d, "arr", loc, errs)
+            check_constraints(cs, d, "arr", loc, errs, self.relax)
             vals = [self.de(c, d[i], loc + (i,), (), errs) for i, c in enumerate(s.a)]
             return tuple(vals) if len(errs) == n0 else None
         if k == "map":
@@ -327,7 +334,7 @@ class RefDeser:
                 errs.append((loc, "type"))
                 return None
             n0 = len(errs)
-            check_constraints(cs, d, "obj", loc, errs)
+            check_constraints(cs, d, "obj", loc, errs, self.relax)
             out = {}
             for key in d:
                 e: list = []
@@ -359,7 +366,7 @@ class RefDeser:
             errs.append((loc, "type"))
             return None
         n0 = len(errs)
-        check_constraints(cs, d, "obj", loc, errs)
+        check_constraints(cs, d, "obj", loc, errs, self.relax)
         values, remain = self.obj_values(s, d, loc, errs, set(d.keys()), top=True)
         if len(errs) > n0:
             return None
